@@ -53,6 +53,15 @@ func genC18(r *Rng, tier string, idx int) *Plan {
 	if r.Bool() {
 		a, b = 1, 0
 	}
+	if r.Bool() {
+		// logins at all filters at the same time: every filter must serve its own login with its own endpoints
+		var par []Op
+		for i := 0; i < nf; i++ {
+			par = append(par, Op{ID: nid(), Kind: "nav", B: 10 + i, F: i, Path: t})
+		}
+		p.Ops = append(p.Ops, Op{ID: nid(), Kind: "par-logins", Par: par})
+		p.Policy = r.Intn(2)
+	}
 	p.Ops = append(p.Ops, Op{ID: nid(), Kind: "nav", B: 0, F: a, Path: t})
 	modes := []string{fmt.Sprintf("from-filter:%d", a), fmt.Sprintf("both-from:%d", a)}
 	for _, m := range modes {
@@ -84,7 +93,7 @@ func runC18(p *Plan) *Result {
 	var w *World
 	infra := ""
 	inBubble(func() {
-		w = NewWorld(p.Spec, p.SchedSeed, 0, nil)
+		w = NewWorld(p.Spec, p.SchedSeed, p.Policy, nil)
 		w.StartNet(nil)
 		defer w.Close()
 		w.Boot()
@@ -108,6 +117,24 @@ func runC18(p *Plan) *Result {
 				a.Raw("xcb", op.B, op.F, cp+cbSep(cp)+"code="+qEsc(src.Code)+"&state="+qEsc(src.Param("state")), fmt.Sprintf("from-filter:%d", op.D))
 			case "limits":
 				c18Limits(w, a, op)
+			case "par-logins":
+				a.Par(op.Par)
+				w.probe("concurrent-logins-at-different-filters")
+				for _, o := range op.Par {
+					var last *CheckRec
+					for _, c := range w.Checks {
+						if c.Browser == o.B {
+							last = c
+						}
+					}
+					if last == nil || last.Class != "ok" {
+						cls := "none"
+						if last != nil {
+							cls = fmt.Sprintf("%s (grpc code %d)", last.Class, last.Code)
+						}
+						w.violate("C18", "login-fails-while-another-filter-is-in-use", fmt.Sprintf("logins were started at all %d filters at the same time; the one at filter %s ended with %s", len(op.Par), w.Filters[o.F].Spec.Chain, cls))
+					}
+				}
 			default:
 				a.Exec(op)
 			}
